@@ -334,7 +334,7 @@ def run(ctx):
     ctx.assume("no client timeouts and no timeout/response races here (C14/C15); virtual time only moves in the speculative phase, and the "
                "statement with a speculative phase is the last one of its history")
     n = ctx.scale(900, 70000)
-    budget = 35 if ctx.quick else 420
+    budget = 35 if ctx.quick else 300
     base = ctx.seed * 1000003 + (ctx.worker or 0) * 100003
     # the time budget bounds the run on a normal machine; on an overloaded one the floors are still reached (count first, capped)
     min_here = -(-240 // max(1, ctx.nworkers))
